@@ -5,11 +5,12 @@ import lib_doc as L
 from framework import Result
 
 ID = 'C09'
-LEAN_TARGETS = ['TexSoupProofs.Properties.C09', 'TexSoupProofs.Properties.C09Grammar']
+LEAN_TARGETS = ['TexSoupProofs.Properties.C09', 'TexSoupProofs.Properties.C09Grammar', 'TexSoupProofs.Properties.AllInputs']
 THEOREMS = ['TexSoup.C09.' + n for n in (
     'bracket_needs_no_partner', 'group_closes_only_on_own_delimiter', 'first_argument_is_next_group',
     'arguments_have_exact_contents', 'spacer_dropped_only_before_opener')] + [
-    'TexSoup.C09G.command_takes_its_groups', 'TexSoup.C09G.runOK_open', 'TexSoup.C09G.following_brace_group_is_absorbed', 'TexSoup.C09G.following_bracket_group_is_absorbed', 'TexSoup.C09G.tight_bracket_after_braces_is_absorbed']
+    'TexSoup.C09G.command_takes_its_groups', 'TexSoup.C09G.runOK_open', 'TexSoup.C09G.following_brace_group_is_absorbed', 'TexSoup.C09G.following_bracket_group_is_absorbed', 'TexSoup.C09G.tight_bracket_after_braces_is_absorbed',
+    'TexSoup.C09.command_args_shape_all', 'TexSoup.AllInputs.StrictInput.doc']
 PARTIAL = []
 TRUSTED = ['harness/props/c09.py (enumeration of name x group run x separator x context, expected attachment)',
            'harness/gen_doc.py (documents with attaching separators, expected tree)',
